@@ -46,11 +46,13 @@ type Stats struct {
 
 func NewStats(prop string) *Stats {
 	proc, _ := strconv.Atoi(os.Getenv("VERIF_PROC"))
-	return &Stats{
+	st := &Stats{
 		Property: prop, Tier: Tier(), Proc: proc, RapidSeed: uint64(EnvInt("VERIF_RAPID_SEED", 0)),
 		NonTrivial: map[string]struct{}{}, Labels: map[string]int64{}, Known: map[string]int64{},
 		Extra: map[string]int64{}, start: time.Now(), maxSamples: 6, sampleKinds: map[string]int{},
 	}
+	hangStats.Store(st) // the deadlock watchdog records into the statistics of the test that is running
+	return st
 }
 
 func Tier() string {
